@@ -284,7 +284,7 @@ SPEC = {
              'numiter in {2,3,5,25}, two-site with tol_split in {0, 1e-8, 1e-3}; every local Ritz value is recorded in order by a monitor on the '
              'internal minimiser. Complete manifolds: every total-charge sector of every (model, L) with d^L <= 243, numiter >= local dimension; '
              'class E must reach the exact sector ground-state energy in one sweep, class M within 30 sweeps (stall = violation, still decreasing = '
-             'inconclusive). distinct = (algorithm, model, L, profile, numiter, sweeps, tol_split class / manifold class).'),
+             'inconclusive); Hamiltonians whose sector restriction is reducible in the product basis (disconnected configuration graph, classified from the dense matrix) fall under the known finding. distinct = (algorithm, model, L, profile, numiter, sweeps, tol_split class / manifold class).'),
     'deciding': ['normalised', 'energy==last-reported', 'variational.reported>=ground-state', 'variational.local>=ground-state', 'upper-bound.reported<=start',
                  'monotone.reported', 'monotone.every-local-step', 'hamiltonian-untouched', 'complete.classE-reaches-ground-state-in-one-sweep',
                  'trace.local-steps-observed'],
